@@ -13,6 +13,7 @@ import GoSecs.Drv.Ownership
 import GoSecs.Drv.Lifecycle
 import GoSecs.Drv.Sml
 import GoSecs.Drv.Router
+import GoSecs.Drv.Secs1Transport
 
 open GoSecs
 
@@ -28,7 +29,8 @@ def handlers : List (String → List String → Option String) := [
   Drv.Ownership.handle,
   Drv.Lifecycle.handle,
   Drv.Sml.handle,
-  Drv.Router.handle
+  Drv.Router.handle,
+  Drv.Secs1Transport.handle
 ]
 
 def dispatch (line : String) : String :=
